@@ -447,6 +447,7 @@ def _drive(obs, mgr, xfers, spec, mode, do_cancel):
         msg = spec.get('cancel_msg', 'bye')
         ev = log.add('cancel.begin', how=mode, msg=msg)
         obs.cancel_events.append(ev)
+        w.director.cancel_began = True
 
         def leave():
             if mode == 'shutdown_cancel':
